@@ -184,6 +184,22 @@ def solver_shard(spec, res, rng):
                 p2 = api.probe(s2, exprs, [], run.b)
                 if p1 != p2:
                     run.viol({"op": "probe"}, "unpickled-solver-answers-differ-from-original-later", original=p1, unpickled=p2, exprs=exprs)
+                elif cname == "SolverHybrid":
+                    # the approximate half must have come back with the same settings and state too
+                    for x_ in (al.v(0), al.v(1 % al.nvars)):
+                        for bound in (al.k(), al.k()):
+                            c_ = [rng.choice(["ule", "uge", "ult"]), x_, bound]
+                            for lv in run.live[:2]:
+                                try:
+                                    lv.solver.add([run.b(c_)])
+                                    lv.cons.append(c_)
+                                except claripy.errors.ClaripyError:
+                                    pass
+                    a1 = api.probe(s, [al.v(0), al.v(1 % al.nvars)], [], run.b, qkw={"exact": False})
+                    a2 = api.probe(s2, [al.v(0), al.v(1 % al.nvars)], [], run.b, qkw={"exact": False})
+                    res.count("approximate_probe_pairs")
+                    if a1 != a2:
+                        run.viol({"op": "probe"}, "unpickled-solver-approximate-answers-differ-from-original", original=a1, unpickled=a2)
         except Exception as ex:  # noqa: BLE001
             res.violation({"kind": "pickle", "what": "history-raised", "config": run.cfg, "observed": repr(ex)[:300], "tb": traceback.format_exc()[-1500:], "history": run.log[-20:]})
         res.case([run.cfg, [e[2] for e in run.log]], bool(run.live[0].cons))
